@@ -92,6 +92,7 @@ def run_case(case):
     eps = torch.finfo(dtype).eps
     sde = sdes.build_generic(spec)
     y0 = sdes.y0_for(spec)
+    y0_before = y0.clone()
     dt = tm["dt"]
     sig = {"method": combo["method"], "noise_type": spec["noise_type"], "dtype": spec["dtype"]}
     grid = solve.fixed_grid(tm["t0"], tm["t1"], dt, tdtype)
@@ -176,7 +177,13 @@ def run_case(case):
         ts_arg, tt = mk_ts(vals)
         if len(tt) < 2:
             continue
+        ts_before = ts_arg.clone() if torch.is_tensor(ts_arg) else list(ts_arg)
         ys, rec = solve_with(ts_arg)
+        checks += 1
+        same_ts = torch.equal(ts_arg, ts_before) if torch.is_tensor(ts_arg) else list(ts_arg) == ts_before
+        if not torch.equal(y0, y0_before) or not same_ts:
+            return fail("inputs_mutated", f"sdeint modified its {'y0' if same_ts else 'ts'} argument in place "
+                                          f"({solve.combo_label(combo)})")
         checks += 1
         if tuple(ys.shape) != (len(tt), spec["batch"], spec["d"]) or ys.dtype != dtype:
             return fail("shape_dtype", f"result has shape {tuple(ys.shape)} dtype {ys.dtype} for {len(tt)} output times "
@@ -187,7 +194,7 @@ def run_case(case):
             return fail("step_grid_depends_on_ts", f"steps taken depend on the output times: {len(log)} steps vs "
                                                    f"{len(want_log)} on the dt grid")
         checks += 1
-        if not torch.equal(ys[0], y0):
+        if not torch.equal(ys[0], y0_before):
             return fail("ys0_is_y0", "ys[0] is not y0 bit-for-bit")
         per_step = {}
         for i in range(1, len(tt)):
